@@ -54,3 +54,12 @@ CHECKS['C18'] = dict(
          'module/class-level functions and classes; oracle = AST nesting and __qualname__.',
     note=STUBS + '; header tokens accept the definition or its enclosing scope',
     technique='small-scope exhaustive enumeration of nesting shapes x token positions; oracle = ast nesting')
+CHECKS['C04'] = dict(
+    text='Bounded-exhaustive exploration: corpus files, an ordering-case pool and PF programs x '
+         'every cursor position inside/at the end of identifiers and after . ( , x {fuzzy, '
+         'non-fuzzy}: algebraic laws of the result list (extension of the typed fragment, '
+         'complete == missing suffix, prefix length, uniqueness, documented order); completeness: '
+         'every receiver expression the instrumented run evaluated to a source-defined instance/'
+         'class/module must be offered every source-defined attribute the run-time object has.',
+    note=STUBS + '; string/number/comment positions and string-like completions are not judged by the identifier clauses',
+    technique='small-scope exhaustive enumeration of (text, cursor, fuzzy); oracles = result-list algebra and CPython dir() of executed receivers')
